@@ -1,10 +1,102 @@
-"""C14 -- NSTART=1: one open confirmable exchange per peer, FIFO backlog, none forgotten."""
+"""C14 -- NSTART=1: one open confirmable exchange per peer, FIFO backlog, none forgotten.
+
+Phase 1 (checks/msgclient.py): MsgClient.tla exhaustively + behaviours replayed + traces validated
+for client requests.  Phase 2 (here): the same promise for every confirmable message -- requests and
+server-side separate responses share MessageManager's per-remote backlog -- on recorded executions
+of a context that serves slow handlers and sends requests at the same time; TLC evaluates the
+clauses of spec/NstartObs.tla on every trace (spec/NstartTrace.tla)."""
+import json
+import random
 import sys
-from harness import runner
+
+from harness import runner, tlc, tracecheck, MachineryError
+from harness.drive import run_all
 from checks import msgclient
+
+EAD = 128
+
+
+def mixed_schedule(rng):
+    nrem = rng.choice([1, 2])
+    steps = []
+    handlers = {}
+    triggers = []
+    t = 0
+    hn = 0
+    q = 0
+    for i in range(rng.randint(2, 7)):
+        r = rng.randint(1, nrem)
+        t += rng.choice([0, 1, 10, 200, 900])
+        if rng.random() < 0.65:
+            hn += 1
+            con = rng.random() < 0.75
+            # slow handlers: the response is a separate message subject to the backlog
+            handlers[str(hn)] = {"delay": rng.choice([EAD + 1, 200, 300, 300, 500, 1500]) if rng.random() < 0.85 else 0,
+                                 "outcome": "ok", "len": 8}
+            steps.append({"at": t, "do": "rx", "r": r, "ty": "CON" if con else "NON", "code": 1,
+                          "mid": 20000 + i, "tok": "%02x%02x" % (0xD0 + r, i), "path": ["h", str(hn)]})
+        else:
+            q += 1
+            con = rng.random() < 0.7
+            steps.append({"at": t, "do": "submit", "q": q, "r": r, "con": con, "f": rng.choice([0.0, 0.5, 1.0])})
+            d = rng.choice([1, 40, 700, 1900])
+            if con:
+                triggers.append({"on": {"q": q, "copy": 1}, "delay": d, "rx": {"r": r, "ty": "ACK", "code": 0, "mid": {"of": q}}})
+            triggers.append({"on": {"q": q, "copy": 1}, "delay": d + rng.choice([1, 300]),
+                             "rx": {"r": r, "ty": "NON", "code": 69, "mid": 30000 + q, "tok": {"of": q}}})
+    # the peer acknowledges every separate CON response, sooner or later (always before the first retransmission)
+    for nth in range(1, 12):
+        triggers.append({"on": {"tx": {"ty": "CON", "cls": "resp", "nth": nth}}, "delay": rng.choice([1, 5, 100, 800, 1900]),
+                         "rx": {"ty": "ACK", "code": 0, "mid": "same"}})
+    return {"tuning": {"EMPTY_ACK_DELAY": 0.125}, "mid0": rng.randint(0, 65535), "tok0": rng.randint(0, 60000),
+            "nremotes": 3, "handlers": handlers, "steps": steps, "triggers": triggers, "horizon": 60 * 1024}
+
+
+def sig_of(clause, events):
+    kinds = []
+    for e in events:
+        if e["k"] == "submit":
+            kinds.append("q")
+        elif e["k"] == "rx" and e["cls"] == "req":
+            kinds.append("s" + e["ty"][0])
+    return "%s|mixed:%s" % (clause, "".join(kinds)[:14])
+
+
+def phase2(rep, args):
+    quick = args.tier == "quick"
+    rng = random.Random(args.seed * 613 + 1414)
+    scheds = [mixed_schedule(rng) for _ in range(400 if quick else 5000)]
+    results = run_all(scheds)
+    for s, res in zip(scheds, results):
+        if "error" in res:
+            raise MachineryError("driver failed on schedule %s\n%s" % (json.dumps(s)[:400], res["error"]))
+    traces = [r["events"] for r in results]
+    queued = 0
+    with tlc.Workdir() as wd:
+        verdicts, r = tracecheck.validate(wd, "NstartTrace", "NstartTrace.cfg.tmpl", {}, traces)
+    for i, v in enumerate(verdicts):
+        # a separate CON response that had to wait for an earlier exchange
+        first = {}
+        for e in traces[i]:
+            if e["k"] == "release":
+                first[e["inv"]] = e["t"]
+        if any(e["k"] == "tx" and e["ty"] == "CON" and e["cls"] == "resp" for e in traces[i]):
+            queued += 1
+        for clause in sorted(v["bad"]):
+            rep.violation(clause, sig_of(clause, traces[i]),
+                          "clause %s false at event %d of a recorded execution with requests and separate responses sharing the backlog (%d events)"
+                          % (clause, v["at"][clause], len(traces[i])),
+                          {"schedule": scheds[i], "events": traces[i], "meta": results[i]["meta"]})
+    rep.coverage["mixed_request_response_traces_validated"] = len(traces)
+    rep.coverage["mixed_traces_with_separate_con_responses"] = queued
+    rep.coverage["traces_validated_against_impl"] = rep.coverage.get("traces_validated_against_impl", 0) + len(traces)
+    rep.coverage["samples"].append({"schedule": scheds[0], "events": traces[0][:14]})
+
 
 def work(rep, args):
     msgclient.check(rep, args, "C14_", "c14")
+    phase2(rep, args)
+
 
 if __name__ == "__main__":
     sys.exit(runner.main("C14", work))
